@@ -545,8 +545,12 @@ impl Monitor for PayMonitor {
 			if let (Some(ch), Some(dl)) = (r.claim_height, r.deadline) {
 				if ch < dl {
 					v.rep.count("c04_i2_claims_checked");
+					if dl - ch <= 3 {
+						v.rep.count("c08_d2_claims_within_three_blocks_of_the_deadline");
+					}
 					if n_ful != phases.len() {
 						v.violation("C04", "I2-claim-window", "claim_funds was called below the claim deadline but not every part was fulfilled", format!("node{} reg {}: {} of {} parts fulfilled (claim height {}, deadline {})", reg.dst, ri, n_ful, phases.len(), ch, dl));
+						v.violation("C08", "D2-claim-below-deadline", "a payment could not be claimed at a height strictly below its advertised claim deadline", format!("node{} reg {}: {} of {} parts fulfilled (claim height {}, deadline {})", reg.dst, ri, n_ful, phases.len(), ch, dl));
 					} else if r.claimed_events == 0 {
 						v.violation("C04", "I2-claim-window", "every part was fulfilled but PaymentClaimed was never reported", format!("node{} reg {}", reg.dst, ri));
 					}
